@@ -32,7 +32,7 @@ def encoder_impls(ctx):
     return [im for im in ctx.fx.impls if im.get('trait_path') == TRAIT]
 
 
-def check_encoder(ctx, R, p, name, E_of, limit_on=None, variants=None):
+def check_encoder(ctx, R, p, name, E_of, limit_on=None, variants=None, limits_only=False):
     """E_of(selfterm, variant) -> expected encoding term; limit_on(selfterm) -> sequence whose length is limited to 65535"""
     ev, outs = ctx.entry(p)
     if not outs:
@@ -54,6 +54,8 @@ def check_encoder(ctx, R, p, name, E_of, limit_on=None, variants=None):
             ret, st = o['ret'], writer_state(o)
             if match(ret, OK(ANY)):
                 n_ok += 1
+                if limits_only:
+                    continue
                 exp_state = adtl(WRITER, 'Writer', [('bytes', T.mk_concat([wb, E]))])
                 ok_state = seq_equal_under(list(o['pc']) + vcond, writer_bytes(o), T.mk_concat([wb, E]))
                 R.inst('C20.E', '%s%s/appends-encoding' % (name, '/' + var if var else ''), ok_state, expected=exp_state, found=st, entry=p)
@@ -62,7 +64,7 @@ def check_encoder(ctx, R, p, name, E_of, limit_on=None, variants=None):
                     R.sample({'rule': 'C20.E', 'entry': p, 'variant': var, 'expected_bytes': T.short(T.mk_concat([wb, E])), 'found_bytes': T.short(writer_bytes(o)), 'returns': T.short(ret)})
             else:
                 # an error outcome must be impossible when the value is within its limit and the writer has room
-                clash = solver.sat(list(o['pc']) + vcond + room + lim)
+                clash = (not limits_only) and solver.sat(list(o['pc']) + vcond + room + lim)
                 R.inst('C20.E', '%s%s/no-refusal-with-room' % (name, '/' + var if var else ''), not clash,
                        expected='error outcomes only when the value is over its limit or the writer is full',
                        found='Err possible under: ' + pc_text(o['pc'], 8), entry=p)
@@ -207,3 +209,38 @@ def run(ctx, R):
                 {'name': 'to_bytes/err', 'cond': [('isvar', call, 'Err')], 'ret': ERR(('vfield', call, 'Err', '0'))}]
         check_rows(R, 'C20.B', p, outs, rows)
     # Writer::default is the derived Default: empty vector (checked through to_bytes' empty writer term above)
+
+
+def all_encoders(ctx, R, rule_prefix=None):
+    """C20.E for every impl (used by checks that rely on the WriteToHeader contract so that they do not trust another check's evidence)"""
+    from spec import enc
+    impls = {strip(im['self']): im for im in encoder_impls(ctx)}
+
+    def pth(self_ty):
+        im = impls.get(strip(self_ty))
+        if im is None:
+            R.violation('C20.E', self_ty, 'anchor-missing', note='no WriteToHeader impl for ' + self_ty)
+            return None
+        return [it['path'] for it in im['items'] if it['name'] == 'write_to'][0]
+    p = pth('v2::model::Addresses')
+    if p:
+        check_encoder(ctx, R, p, 'Addresses', lambda s, var: enc.addr_enc(s, var), variants=list(tables.FAMILY_SIZE))
+    p = pth('v2::model::TypeLengthValue')
+    if p:
+        check_encoder(ctx, R, p, 'TypeLengthValue', lambda s, v: enc.tlv_enc(('field', s, 'kind'), ('field', s, 'value')), limit_on=lambda s: ('field', s, 'value'))
+    p = pth('(T, &[u8])')
+    if p:
+        check_encoder(ctx, R, p, '(T, &[u8])', lambda s, v: enc.tlv_enc(('call', 'into:u8', (('field', s, '0'),)), ('field', s, '1')), limit_on=lambda s: ('field', s, '1'))
+    p = pth('v2::model::TypeLengthValues')
+    if p:
+        check_encoder(ctx, R, p, 'TypeLengthValues', lambda s, var: ('field', s, 'bytes'))
+    p = pth('[u8]')
+    if p:
+        check_encoder(ctx, R, p, '[u8]', lambda s, var: s, limit_on=lambda s: s)
+    p = pth('v2::model::Type')
+    if p:
+        check_encoder(ctx, R, p, 'Type', lambda s, var: ('arr', (('discr', s),)))
+    for ity, width in (('u8', 1), ('u16', 2), ('u32', 4), ('u64', 8), ('u128', 16), ('usize', 8), ('i8', 1), ('i16', 2), ('i32', 4), ('i64', 8), ('i128', 16), ('isize', 8)):
+        p = pth(ity)
+        if p:
+            check_encoder(ctx, R, p, ity, lambda s, var, width=width: T.mk_tobytes('tobe', width, s))
